@@ -180,7 +180,10 @@ private theorem append_fail_core (hf : HashFns) (t : Tree) (v : Bytes) (h : (app
 
 private theorem update_info (hf : HashFns) (t t' : Tree) (idxs : List Nat) (data : List Bytes)
     (hu : update hf t idxs data = some t') : t'.info = some t'.core := by
-  unfold update at hu
+  rw [update_eq] at hu
+  split at hu
+  case isFalse => cases hu
+  unfold updateOrig at hu
   dsimp only at hu
   split at hu
   · cases hu
@@ -307,7 +310,10 @@ theorem C11_proof_other_leaf (hf : HashFns) (hinj : BranchInj hf)
 /-- A proof is accepted for at most one root. -/
 theorem C11_proof_one_root (hf : HashFns) (q : List Bytes) (p : Proof) (r r' : Bytes)
     (h : verifyProof hf q p r = true) (h' : verifyProof hf q p r' = true) : r = r' := by
-  unfold verifyProof at h h'
+  rw [verifyProof_eq, Bool.and_eq_true] at h h'
+  replace h := h.2
+  replace h' := h'.2
+  unfold verifyProofOrig at h h'
   by_cases hz : p.size = 0
   · simp [hz] at h
   · simp only [hz, if_false] at h h'
